@@ -82,6 +82,14 @@ CLAIMED.update({
         design="DESIGN.md section 5, C02"),
 })
 
+CLAIMED.update({
+    "C14": dict(
+        text="Deductive proof (Verus) of the structural half of inlining on the real code: append_code copies every line of the callee, suffixing exactly the label definitions and the operands of branches/JMP with `inline<counter>` and changing nothing else (mnemonic, sizes, cycles, inline-assembly and comment lines); suffixing is injective, so a branch of the expansion resolves to a label of the expansion exactly when it did in the callee; push_code uses a fresh counter, appends the renamed clone after the caller's code followed by the end label, and fails with an error (no panic) when the callee has no code yet; a `return` in an inline function jumps to the label that becomes that end label, a called function returns by RTS.",
+        note="Partial: behavioural equivalence of the inlined and the called placement (live registers at the call site, parameter passing, flags) is whole-program semantics and is not decided. Derived Clone assumed structural; String as hash key; std::fmt; asm()/append_* contracts proved in U-asm/U-size and reused as stubs.",
+        technique="contract-based deductive verification (Verus; modular: callers verified against callee contracts proved in other units)",
+        design="DESIGN.md section 5, C14"),
+})
+
 NOT_APPLICABLE = {
     "C11": "no contract within reach: the property is about the comment/splice scanner in cpp::process (str::split*/byte slicing without vstd specifications), pest WHITESPACE/COMMENT rules (generated parser) and a relation between two whole compilations",
 }
